@@ -7,7 +7,8 @@
    (= every interleaving of application calls, deliveries in any order, any number of times or never,
    replies consumed in any order or replaced by a timeout), any written values, any clock readings that
    increase per node. *)
-From PGV Require Import C11.Model C11.Proofs0 C11.Proofs1 C11.Proofs2 C11.Proofs3 C11.Proofs4 C11.Proofs5.
+From PGV Require Import C11.Model C11.Proofs0 C11.Proofs1 C11.Proofs2 C11.Proofs3 C11.Proofs4 C11.Proofs5
+  C11.ProofsT C11.ProofsL.
 From Coq Require Import Lia.
 
 (* versions only grow: between any two states of an execution *)
@@ -79,3 +80,118 @@ Proof.
 Qed.
 Print Assumptions abort_releases.
 
+(* contenders_progress: see C11/ProofsL.v for the definitions. From every reachable state in which the
+   replicas are released (no operation in flight, no accepted pre-commit held), every replica that is at the
+   highest version can run a whole section to commit: there is a finite continuation (explicitly constructed,
+   using only fresh messages, each delivered once) after which its new value is installed as the next version
+   at every replica. *)
+Theorem contenders_progress : forall tr n z es s i xi v,
+  run (cfg tr) (init_state n z) es = Some s ->
+  2 <= n -> released s -> get s i = Some xi -> (forall j y, get s j = Some y -> n_ver y <= n_ver xi) ->
+  exists es' s', run (cfg tr) s es' = Some s' /\
+    forall j y, get s' j = Some y -> n_ver y = n_ver xi + 1 /\ n_old y = v.
+Proof. intros tr n z es s i xi v H. exact (progress_lemma tr n z s i xi v (ex_intro _ es H)). Qed.
+Print Assumptions contenders_progress.
+
+(* transport_independent: the same events over the in-process and the RPC transport lead to states that differ
+   only in pointer identities (erase forgets them), or are impossible over both *)
+Theorem transport_independent : forall n z es,
+  option_map erase (run (cfg Local) (init_state n z) es) = option_map erase (run (cfg Rpc) (init_state n z) es).
+Proof. exact transport_lemma. Qed.
+Print Assumptions transport_independent.
+
+(* ---------- non-vacuity: concrete executions meet the hypotheses ---------- *)
+Open Scope Z_scope.
+
+(* one uncontended write over three replicas, every message delivered once *)
+Definition tr_commit : list event :=
+  [EWrite 0 1001; EPreCall 0; EPreWake 0 1; EDeliver 0 0 1; EDeliver 0 0 2; EReply 0 0 1 0; EReply 0 0 2 0;
+   EPreFinish 0 0; ECommit 0 2; EDeliver 0 1 1; EDeliver 0 1 2; EReply 0 1 1 0; EReply 0 1 2 0; ECommitFinish 0].
+
+Example c11_agreement_nonvacuous :
+  exists s, run (cfg Rpc) (init_state 3 7) tr_commit = Some s /\
+            In (1%nat, 1%nat, 1001) (g_installed s) /\ In (2%nat, 1%nat, 1001) (g_installed s) /\
+            In (0%nat, 1%nat, 1001) (g_installed s) /\
+            map n_ver (g_nodes s) = [1%nat; 1%nat; 1%nat] /\ map n_old (g_nodes s) = [1001; 1001; 1001].
+Proof. vm_compute. eexists. split; [reflexivity|]. repeat split; auto 10. Qed.
+
+(* after the successful pre-commit the proposer is in the state stale_read_aborts / one_pending_winner speak about *)
+Example c11_pending_winner_nonvacuous :
+  exists s x, run (cfg Local) (init_state 3 7) (firstn 8 tr_commit) = Some s /\ get s 0 = Some x /\
+              n_preok x = true /\ n_op x = OpNone /\ n_cs x = HasPre.
+Proof. vm_compute. eexists. eexists. repeat split; reflexivity. Qed.
+
+(* a failed pre-commit: replica 1 accepted it, both sends time out, the proposer rolls back;
+   delivering the Abort (request 1 of node 0) to replica 1 releases it *)
+Definition tr_rollback : list event :=
+  [EWrite 0 1001; EPreCall 0; EPreWake 0 1; EDeliver 0 0 1; ETimeout 0 0 1; ETimeout 0 0 2; EPreFinish 0 2].
+
+Example c11_abort_releases_nonvacuous :
+  exists s xw x a, run (cfg Rpc) (init_state 3 7) tr_rollback = Some s /\
+    get s 0 = Some xw /\ n_op xw = OpAbort a 0 [] true /\ lookup_req s 0 1 = Some a /\
+    get s 1 = Some x /\ holds_lock x 0 (r_ver a) /\
+    (exists s' y, step (cfg Rpc) s (EDeliver 0 1 1) = Some s' /\ get s' 1 = Some y /\ n_tpc y = false).
+Proof.
+  vm_compute. do 4 eexists. repeat split; try reflexivity. do 2 eexists. repeat split; reflexivity.
+Qed.
+
+(* ---------- the pinned tree (rules as in the snapshot) violates the statement: witnesses replayed on the real code ---------- *)
+
+(* pointer comparison: over the RPC transport the same Abort does not release replica 1 *)
+Example pinned_abort_releases_refuted :
+  exists s s' y, run (mkCfg pinned_rules Rpc) (init_state 3 7) tr_rollback = Some s /\
+    step (mkCfg pinned_rules Rpc) s (EDeliver 0 1 1) = Some s' /\ get s' 1 = Some y /\ n_tpc y = true.
+Proof. vm_compute. do 3 eexists. repeat split; reflexivity. Qed.
+
+(* no stale-message filter on the in-process handle: the Abort of the first attempt (request 1) arrives after the
+   second pre-commit (request 2) was accepted; node 2 obtains the same vote: two values for version 1 *)
+Definition tr_stale_abort : list event :=
+  [EWrite 0 1001; EPreCall 0; EPreWake 0 1; ETimeout 0 0 1; ETimeout 0 0 2; EPreFinish 0 2; EDeliver 0 1 2;
+   EReply 0 1 2 0; EAbortFinish 0; EAbort 0 0; EWrite 0 1002; EPreCall 0; EPreWake 0 3; EDeliver 0 2 1;
+   EReply 0 2 1 0; EPreFinish 0 0; EDeliver 0 1 1; EWrite 2 2001; EPreCall 2; EPreWake 2 4; EDeliver 2 0 1;
+   EReply 2 0 1 0; EPreFinish 2 0; ECommit 0 5; ECommit 2 6; EDeliver 0 3 2; EReply 0 3 2 0; ECommitFinish 0;
+   EDeliver 2 1 1; EReply 2 1 1 0; ECommitFinish 2].
+
+Example pinned_agreement_refuted :
+  exists s, run (mkCfg pinned_rules Local) (init_state 3 7) tr_stale_abort = Some s /\
+            In (0%nat, 1%nat, 1002) (g_installed s) /\ In (1%nat, 1%nat, 2001) (g_installed s).
+Proof. vm_compute. eexists. repeat split; auto 10. Qed.
+
+(* ... and the same events are impossible on the repaired code (the stale Abort is dropped, node 2 is refused) *)
+Example repaired_rejects_stale_abort : run (cfg Local) (init_state 3 7) tr_stale_abort = None.
+Proof. vm_compute. reflexivity. Qed.
+
+(* replicas that missed Commit(1) vote for version 2, are released by its Abort and vote again for version 1
+   (rules after the first two fixes, before the third) *)
+Definition tr_lagging : list event :=
+  [EWrite 0 1001; EPreCall 0; EPreWake 0 1; EDeliver 0 0 2; EDeliver 0 0 3; EReply 0 0 2 0; EReply 0 0 3 0;
+   EPreFinish 0 0; ECommit 0 2; EDeliver 0 1 1; ERead 1; EWrite 1 2001; EPreCall 1; EPreWake 1 3;
+   EDeliver 1 0 2; EDeliver 1 0 3; EDeliver 1 0 4; EReply 1 0 2 0; EReply 1 0 3 0; EPreFinish 1 0; EAbort 1 4;
+   EDeliver 1 1 2; EDeliver 1 1 3; EDeliver 1 1 4; EReply 1 1 2 0; EReply 1 1 3 0; EAbortFinish 1;
+   EWrite 2 3001; EPreCall 2; EPreWake 2 5; EDeliver 2 0 3; EDeliver 2 0 4; EReply 2 0 3 0; EReply 2 0 4 0;
+   EPreFinish 2 0; ECommit 2 6; EDeliver 2 1 3; EDeliver 2 1 4; EReply 2 1 3 0; EReply 2 1 4 0; ECommitFinish 2].
+
+Example no_promise_agreement_refuted :
+  exists s, run (mkCfg (mkRules true true false) Rpc) (init_state 5 7) tr_lagging = Some s /\
+            In (1%nat, 1%nat, 1001) (g_installed s) /\ In (3%nat, 1%nat, 3001) (g_installed s).
+Proof. vm_compute. eexists. repeat split; auto 10. Qed.
+
+Example repaired_rejects_lagging : run (cfg Rpc) (init_state 5 7) tr_lagging = None.
+Proof. vm_compute. reflexivity. Qed.
+
+(* a released state that is not the initial one: the rolled-back proposal of node 0 has been released by replica 1
+   (the state abort_releases leads to), node 0 is left in failedPreCommit; contenders_progress applies to it *)
+Definition tr_released : list event :=
+  tr_rollback ++ [EDeliver 0 1 1; EDeliver 0 1 2; EReply 0 1 1 0; EReply 0 1 2 0; EAbortFinish 0].
+
+Example c11_progress_nonvacuous :
+  exists s x0 x1, run (cfg Rpc) (init_state 3 7) tr_released = Some s /\ released s /\
+    get s 0 = Some x0 /\ n_cs x0 = FailedPre /\ n_att x0 = 1%nat /\
+    get s 1 = Some x1 /\ a_set (n_acc x1) = true /\ n_tpc x1 = false /\
+    (forall j y, get s j = Some y -> (n_ver y <= n_ver x0)%nat).
+Proof.
+  vm_compute. do 3 eexists. split; [reflexivity|]. split.
+  - intros [|[|[|i]]] x H; cbn in H; try (destruct i; discriminate); inversion H; subst; cbn; repeat split; congruence.
+  - repeat split; try reflexivity.
+    intros [|[|[|j]]] y H; cbn in H; try (destruct j; discriminate); inversion H; subst; cbn; auto.
+Qed.
